@@ -300,17 +300,17 @@ def coq_term(c, o, rng):
     ms = ['(%s, %d, %d, %d, %d)' % (clist(m['hdr']), m['clen'], m['plen'], m['ada'], m['adb']) for m in members]
     cum = o['cum']
     api_cum = [cum[k] if k >= 0 else -1 for k in o['api_k']]
-    failed = any(r[1] not in (0, 1) for r in o['res'])
+    failed = any(r[1] not in (0, 1) for r in o['res']) or bool(c.get('failw'))
     res = []
     for op, r in zip(c['ops'], o['res']):
-        cls = r[1]
-        if failed and op['op'] != 'close':
-            cls = -1   # whether this call already saw the failure depends on timing
-        res.append('(%d, %s)' % (r[0], cz(cls)))
+        n, cls = r[0], r[1]
+        if failed and op['op'] in ('w', 'f'):
+            n, cls = -1, -1   # whether this call already saw the failure depends on timing
+        res.append('(%s, %s)' % (cz(n), cz(cls)))
     probe = ['(%d, %d, %d, %d)' % (q['len'], q['ada'], q['adb'], q['clen']) for q in c.get('probe') or []]
-    return 'WrCase [%s] %s %d %s %s%%nat %d%%nat [%s] [%s] %s %s %s [%s]' % (
+    return 'WrCase [%s] %s %d %s %s%%nat %d%%nat [%s] [%s] %s %s %s [%s] %s' % (
         '; '.join(coq_op(x) for x in c['ops']), cz(c['level']), c['wc'], coq_hdr(c.get('hdr')),
-        clist(sched), rounds, '; '.join(res), '; '.join(ms), cb(eof), clist(api_cum), clist(o['w_k']), '; '.join(probe))
+        clist(sched), rounds, '; '.join(res), '; '.join(ms), cb(eof), clist(api_cum), clist(o['w_k']), '; '.join(probe), clist(c.get('failw') or []))
 
 
 def he_terms(c, o):
@@ -330,7 +330,7 @@ def case_key(c):
     if c.get('mode') in ('laws', 'bam', 'probe'):
         return (c['mode'], str(c.get('refs')), c.get('wc'), c.get('delay'), len(c.get('ops') or []))
     return (c.get('mode'), tuple((o['op'], o.get('kind'), o.get('len'), o.get('seed')) for o in c['ops']), c['level'], c['wc'], c.get('rd'),
-            str(c.get('hdr')), tuple(c.get('reads') or []), c.get('delay'))
+            str(c.get('hdr')), tuple(c.get('reads') or []), c.get('delay'), tuple(c.get('failw') or []))
 
 
 def run_property(res, rng, pid, cases, nontrivial, bucket, trusted, assume, rule):
